@@ -58,6 +58,15 @@ func checkC04(c *Check) {
 		return
 	}
 	p := c.P
+	// what reaches the tracker is the coalesced event itself (no session filled in on the way)
+	sub := NewCheck("C14", "other", c.Tier, c.P)
+	callbackPipeline(sub)
+	for _, o := range sub.Obls {
+		if o.Rule == "callback-pipeline" || o.Rule == "anchor" {
+			o.Rule = "event-as-recorded: " + o.Rule
+			c.Obls = append(c.Obls, o)
+		}
+	}
 	// 1. short-circuit
 	n1 := 0
 	for _, f := range t.Facts {
